@@ -506,6 +506,27 @@ def apply_op(op, regs):
         if k == 'block':
             blocked = [n for n in range(len(op['pos'][0])) if n not in op['common']]
             return 'ok', yastn.block({tuple(p[n] for n in blocked): regs[i] for i, p in zip(op['ts'], op['pos'])}, common_legs=tuple(op['common']) if op['common'] else None)
+        if k == 'route':
+            # an ALTERNATIVE ROUTE to the value already held (and validated) in register a.  'blockdot': sum_k <x_k . conj(y_k)> over the first three legs, computed by
+            # hard-fusing the three legs of every operand (nested as op['nest']), blocking the fused operands along the fused leg and contracting the two blocked legs once
+            def nest(t):
+                if op['nest'] == 'post':     # only (l0 l1) is fused before blocking; the blocked leg is fused with l2 afterwards: p(s(p(l0 l1) ...) l2)
+                    return t.fuse_legs(axes=((0, 1), 2, 3), mode='hard')
+                if op['nest'] == 'right':
+                    return t.fuse_legs(axes=(0, (1, 2), 3), mode='hard').fuse_legs(axes=((0, 1), 2), mode='hard')
+                if op['nest'] == 'left':
+                    return t.fuse_legs(axes=((0, 1), 2, 3), mode='hard').fuse_legs(axes=((0, 1), 2), mode='hard')
+                return t.fuse_legs(axes=((0, 1, 2), 3), mode='hard')
+            if any(regs[i] is None for i in op['xs'] + op['ys']):
+                return 'operand missing (an earlier step failed in this execution)', None
+            if op['nest'] == 'post':
+                X = yastn.block({(i,): nest(regs[j]) for i, j in enumerate(op['xs'])}, common_legs=(1, 2)).fuse_legs(axes=((0, 1), 2), mode='hard')
+                Y = yastn.block({(i,): nest(regs[j]) for i, j in enumerate(op['ys'])}, common_legs=(1, 2))
+                Y = yastn.tensordot(Y, regs[op['em']], axes=(2, 0)).fuse_legs(axes=((0, 1), 2), mode='hard')
+                return 'ok', yastn.tensordot(X, Y, axes=(0, 0), conj=(0, 1))
+            X = yastn.block({(i,): nest(regs[j]) for i, j in enumerate(op['xs'])}, common_legs=(1,))
+            Y = yastn.block({(i,): nest(regs[j]) for i, j in enumerate(op['ys'])}, common_legs=(1,))
+            return 'ok', yastn.tensordot(X, Y, axes=(0, 0), conj=(0, 1))
         if k == 'lincomb':
             x, y = complex(*op['amp'][0]), complex(*op['amp'][1])
             b = regs[op['b']]
@@ -583,8 +604,11 @@ def apply_op(op, regs):
 def event_of(op, out, res, sym, nreg_map):
     e = {k: v for k, v in op.items()}
     e['a'] = op['a'] + 1
-    if 'ts' in op:
-        e['ts'] = [i + 1 for i in op['ts']]
+    for kk in ('ts', 'xs', 'ys'):
+        if kk in op:
+            e[kk] = [i + 1 for i in op[kk]]
+    if 'em' in op:
+        e['em'] = op['em'] + 1
     if 'b' in op:
         e['b'] = op['b'] + 1
     if 'c' in op:
